@@ -282,6 +282,54 @@ def _range_job(E: int, M: int) -> Callable[[], Record]:
     return run
 
 
+def _reuse_job(E0: int, M0: int, E: int, M: int) -> Callable[[], Record]:
+    """History: FPFormat is a mutable dataclass.  An object used as E0/M0 (range properties read,
+    one quantisation) whose fields are then reassigned to E/M must behave as a fresh E/M format."""
+
+    def run() -> Record:
+        tag = f"C13:formats.FPFormat[E{E0}M{M0}->E{E}M{M}]"
+        c = fmt_consts(E, M)
+        props = ("max_absolute_value", "min_absolute_normal", "min_absolute_subnormal")
+
+        def build(ctx: Ctx) -> Any:
+            it = mk_bit_interp(ctx, [FM + "FPFormat." + p for p in props] + [FM + "FPFormat.quantise"])
+            x = fp32("x")
+            preconditions(ctx, E, x)
+
+            def thunk() -> Any:
+                fmt = mk_format(it, E0, M0, "nearest")
+                first = [it.getattr(fmt, p) for p in props]
+                q = lookup_fn(it, FM + "FPFormat.quantise")
+                it.call(q, [fmt, BitTensor(Shape([Run(ctx, "a")]), "float32", x, Storage("input:x0"), "x0")], {})
+                it.setattr(fmt, "exponent_bits", E)
+                it.setattr(fmt, "mantissa_bits", M)
+                again = [it.getattr(fmt, p) for p in props]
+                r = it.call(q, [fmt, BitTensor(Shape([Run(ctx, "a")]), "float32", x, Storage("input:x1"), "x1")], {})
+                fresh = it.call(q, [mk_format(it, E, M, "nearest"), BitTensor(Shape([Run(ctx, "a")]), "float32", x, Storage("input:x2"), "x2")], {})
+                return first, again, r, fresh
+
+            return it, thunk
+
+        def post(p: PathResult, i: int) -> Any:
+            ctx = p.ctx
+            if p.outcome != "return":
+                ctx.oblige(f"{tag}:no_exception", False, exc=str(p.exc))
+                return None
+            first, again, r, fresh = p.value
+            for name, got, want in zip(props, again, (c["max"], c["min_normal"], c["min_sub"])):
+                ctx.oblige(f"{tag}:{name}_follows_the_current_fields", isinstance(got, (int, Fraction)) and Fraction(got) == want, got=str(got), want=str(want))
+            ctx.oblige(f"{tag}:quantise_equals_a_fresh_format_of_the_current_fields", z3.fpToIEEEBV(r.elem) == z3.fpToIEEEBV(fresh.elem))
+            return {"x": z3.fpToIEEEBV(z3.FP("x", z3.Float32()))}
+
+        return run_config(FM + "FPFormat.quantise", {"E0": E0, "M0": M0, "E": E, "M": M, "history": "fields reassigned after use"}, build, post)
+
+    return run
+
+
+for (_E0, _M0), (_E, _M) in (((5, 2), (4, 3)), ((4, 3), (5, 2)), ((8, 23), (2, 1))):
+    register(Job(f"c13:reuse[E{_E0}M{_M0}->E{_E}M{_M}]", ["C13"], FM + "FPFormat.quantise", {"E0": _E0, "M0": _M0, "E": _E, "M": _M}, _reuse_job(_E0, _M0, _E, _M)))
+
+
 for _E, _M in ALL_FORMATS:
     register(Job(f"c13:range[E{_E}M{_M}]", ["C13"], FM + "FPFormat.max_absolute_value", {"E": _E, "M": _M}, _range_job(_E, _M), tier="quick" if _M in (0, 2, 3, 23) else "thorough"))
 
